@@ -52,6 +52,20 @@ func c17URL(g *Gen) (u string, inContract bool) {
 	}
 	if g.Chance(1, 30) {
 		u += strings.Repeat("Ab/", 1500)
+	} else if g.Chance(1, 30) {
+		// beyond the 4096-byte cap with code points whose lower-case form has another UTF-8 length (Kelvin sign,
+		// dotted capital I, A/T with stroke), invalid bytes, and a multi-byte rune straddling the cap: the lower-cased
+		// URL is the lower-casing of the capped URL
+		unit := Pick(g, []string{"\u212a/", "\u0130b/", "\u023a\u023e/", "a\xffb/", "Ab\u212a", "\u00c9/"})
+		u += "/" + strings.Repeat(unit, 4200/len(unit)+g.Intn(3))
+		if g.Bool() {
+			// shift so that the cap falls at every offset inside a rune
+			u = u[:len(u)-1] + strings.Repeat("x", g.Intn(4))
+			k := 4096 - len(u)%7 - g.Intn(4)
+			if k > 0 && k < len(u) {
+				u = u[:k] + "\u212a\u023a" + u[k:]
+			}
+		}
 	}
 	return u, inContract
 }
